@@ -89,6 +89,15 @@ def rule_a(prog, rep):
             arm = [it for it in g if it[0] == 'match']
             good = bool(arm) and {short(v) for v in pat_variants(arm[-1][2]['pat'])} == {'None'} and \
                 any(x.get('k') == 'call' and short(callee(x)) in ('value', 'value_mut') for x, _ in walk(arm[-1][1]))
+            if not good:
+                # `if let Some(lock) = node.value() { .. return }` / `let Some(..) = .. else` spelled the other way round:
+                # the installation runs where the `Some` test failed
+                for it in g:
+                    c = it[1] if it[0] == 'if' else None
+                    if c is not None and it[2] is False and c.get('k') == 'letcond' and \
+                            {short(v) for v in pat_variants(c['pat'])} == {'Some'} and \
+                            any(x.get('k') == 'call' and short(callee(x)) in ('value', 'value_mut') for x, _ in walk(c['init'])):
+                        good = True
         if good:
             rep.ok('C06.a', f'Store::{fname}:install', loc(f, news[0][0]), 'a new Lock is installed only when the node has none, for the requester')
         else:
@@ -221,7 +230,12 @@ def rule_c(prog, rep):
             return 'own?'
         return None
     classify.b = b
-    paths = Tracer(crate, classify).run_fn(f)
+
+    def lock_alias(c):
+        if c.get('k') == 'binary' and c.get('op') in ('Eq', 'Ne') and _is_holder_cmp(dict(c, op='Eq'), b):
+            return ('own', c['op'] == 'Ne')
+        return None
+    paths = Tracer(crate, classify, cond_alias=lock_alias).run_fn(f)
     rows = {}
     for (ex, t, v) in paths:
         tb = tuple(base(x) for x in t)
@@ -239,11 +253,13 @@ def rule_c(prog, rep):
     held_ok = rows.get((True, 'Ok'), set())
     if not held_ok or any('set' in t or 'new' in t for t in held_ok | held_err):
         res.append('held key: lock is replaced / own request not granted')
-    # the Some arm decides by `client_id == lock.holder`
-    ifs = [nd for nd, a in crate.walk_fn(f) if nd.get('k') == 'if' and _is_holder_cmp(nd['cond'], b)]
-    if len(ifs) != 1 or not any(x.get('k') == 'return' for x, _ in walk(ifs[0].get('else', {}))) or \
-            any(x.get('k') == 'return' for x, _ in walk(ifs[0]['then'])):
-        res.append('held key is not decided by `client_id == lock.holder` (then: Ok, else: Err)')
+    # the held-key rows are decided by `client_id == lock.holder` (any spelling): own -> Ok, foreign -> Err
+    for t in held_ok:
+        if '?own=1' not in t or '?own=0' in t:
+            res.append('held key is not decided by `client_id == lock.holder` (then: Ok, else: Err)')
+    for t in held_err:
+        if '?own=0' not in t or '?own=1' in t:
+            res.append('held key is not decided by `client_id == lock.holder` (then: Ok, else: Err)')
     if res:
         rep.violation('C06.c', 'Store::lock', f.loc, '; '.join(res), key='C06.c/lock/' + '|'.join(res))
     else:
